@@ -47,6 +47,8 @@ def c04(form_list, requested, result, reeval=None, requested_lines=()):
     errs = []
     if result.exc is not None:
         return errs, None
+    if getattr(result, 'solution_unstable', None):
+        errs.append(('solution-not-stable', f'asking the solver for its solution again after the caller modified the first copy gives a different solution: {result.solution_unstable}'))
     if reeval is None:
         ref, res, _ = refeval.reevaluate(form_list, result.final_inputs, result.solution)
     else:
@@ -230,6 +232,8 @@ def stored_equals_supplied(result):
     for name, v in result.final_inputs.items():
         w = result.store_inputs.get(name)
         if w is None:
+            if result.exc is not None:
+                continue       # the run aborted (possibly while storing this very answer)
             errs.append(('supplied-value-not-stored', f'{name} was supplied as {v!r} but the store does not hold it after the run'))
         elif w != v:
             errs.append(('stored-text-differs', f'{name} was supplied as {v!r} but the store holds {w!r}'))
